@@ -36,6 +36,21 @@ def out_cursors(k, kind):
                     p = s.target.index.name
                     if cursors.setdefault(r[2], p) != p:
                         problems.append((s, f"level {r[2]} appended through two cursors"))
+    # the final `crd = realloc(crd, p)` names the cursor too (needed when no coordinate can ever be
+    # appended, e.g. a(i) = b(i) * 0 into a compressed output); both sources must agree
+    for s, path in simple_statements(k.kernels[kind].body):
+        if (
+            not path
+            and isinstance(s, IR.Assignment)
+            and isinstance(s.target, IR.Variable)
+            and isinstance(s.value, IR.ArrayReallocate)
+            and isinstance(s.value.n_elements, IR.Variable)
+        ):
+            r = roles.role.get(s.target.name)
+            if r and r[0] == "crd" and r[1] == info.out:
+                p = s.value.n_elements.name
+                if cursors.setdefault(r[2], p) != p:
+                    problems.append((s, f"crd of level {r[2]} shrunk to {p}, appended through {cursors[r[2]]}"))
     k.cache[key] = (cursors, problems)
     return k.cache[key]
 
